@@ -73,3 +73,97 @@ PROPS["C07"] = dict(units=c07_units, bounds_text="y in 1..9998, all other argume
 PROPS["C20"] = dict(units=c20_units, bounds_text="all valid (y,m,d), y in 1..9998; cubes on month")
 PROPS["C19"] = dict(units=c19_units, bounds_text="two arbitrary valid date-times, years 1..9999")
 PROPS["C05"] = dict(units=c05_units, bounds_text="all valid date-times y in 1..9998")
+
+
+# ---------------- per-year machinery ----------------
+import re, os
+
+REPO = os.environ.get("VERIF_REPO", "/repo")
+
+
+def leap_table_years():
+    """Years named in the LEAP_11 / LEAP_12 override tables of the current source (structural years)."""
+    ys = []
+    try:
+        src = open(os.path.join(REPO, "calendar", "LunarYear.go")).read()
+        for name in ("LEAP_11", "LEAP_12"):
+            mm = re.search(r"var %s = \[\]int\{([^}]*)\}" % name, src)
+            if mm:
+                ys.append([int(x) for x in mm.group(1).replace("\n", " ").split(",") if x.strip()])
+    except Exception:
+        pass
+    return ys
+
+
+S_CORE = [1, 2, 8, 9, 15, 18, 23, 24, 236, 237, 239, 240, 241, 1574, 1582, 1583, 1600, 1644, 1645, 1899, 1900,
+          1928, 1929, 1959, 1960, 1990, 2000, 2019, 2020, 2022, 2024, 2033, 2034, 3358, 9997, 9998]
+
+
+def year_set(tier, seed, budget_quick=None, thorough_n=None):
+    ys = set(S_CORE)
+    tabs = leap_table_years()
+    for t in tabs:
+        inr = [y for y in t if 1 <= y <= 9997]
+        for y in inr[:1] + inr[-1:]:
+            ys.update([y, y + 1])
+    rnd = random.Random(seed)
+    if tier == "quick":
+        ys.update(rnd.sample(range(1, 9999), 4))
+        if budget_quick:
+            core = sorted(ys)
+            # keep structural extremes, thin the rest deterministically
+            keep = set(core[:: max(1, len(core) // budget_quick)])
+            keep.update([15, 18, 1582, 2033, 9998])
+            for t in tabs:
+                inr = [y for y in t if 1 <= y <= 9997]
+                for y in inr[-1:]:
+                    keep.update([y, y + 1])
+            ys = keep
+    else:
+        for t in tabs:
+            for y in t:
+                if 1 <= y <= 9997:
+                    ys.update([y, y + 1])
+        n = thorough_n or int(os.environ.get("VERIF_THOROUGH_YEARS", "1200"))
+        step = max(1, 9998 // n)
+        off = rnd.randrange(step)
+        ys.update(range(1 + off, 9999, step))
+        ys.update(range(1890, 2110))
+    return sorted(y for y in ys if 1 <= y <= 9998)
+
+
+def per_year(harness, pid, years, extra_params=None, months=range(1, 13), **kw):
+    us = []
+    for Y in years:
+        for m in months:
+            p = {"Y": Y}
+            if extra_params:
+                p.update(extra_params)
+            us.append(dict(id=f"{pid}[Y={Y},m={m}]", harness=harness, params=p, concrete={"v_m": m}, **kw))
+    return us
+
+
+def c03_units(tier, seed):
+    ys = year_set(tier, seed)
+    us = per_year("calendar.VH_C03_Near", "C03a", ys)
+    us += [dict(id=f"C03t[Y={Y}]", harness="calendar.VH_C03_Table", params={"Y": Y}) for Y in ys]
+    return us
+
+
+PROPS["C03"] = dict(units=c03_units, bounds_text="every second of each listed civil year (year list in unit_bounds); cubes on civil month",
+                    outside="that term instants are roots of the solar longitude; years not listed")
+
+
+def c05_units(tier, seed):
+    us = cube("calendar.VH_C05_DayTime", "C05a", {}, "v_m", range(1, 13))
+    us += per_year("calendar.VH_C05_YearMonth", "C05b", year_set(tier, seed))
+    return us
+
+
+def c13_units(tier, seed):
+    return per_year("calendar.VH_C13_Seasonal", "C13a", year_set(tier, seed))
+
+
+PROPS["C05"] = dict(units=c05_units, bounds_text="day/hour pillars: all date-times of years 1..9998 (year symbolic); year/month pillars: every second of each listed year",
+                    outside="year/month pillars in years not listed")
+PROPS["C13"] = dict(units=c13_units, bounds_text="every day (and time of day) of each listed civil year", outside="years not listed")
